@@ -20,7 +20,7 @@ pub fn prop() -> Prop {
         check,
         quick_runs: 24_000,
         both_profiles: false,
-        rule: "a run = an interleaved history of well-formed frames of every supported format (valid and no-valid-value variants of each carrier) for 1-4 aircraft with time steps in between (incl. > 10 s and > delete_after), zero-delay and delayed duplicates, -U/-R on/off; every third run index enumerates short histories (length 2-4) densely over a reduced alphabet of 2 aircraft x 13 frame kinds x valid/invalid; the rest are random (length 3-60); non-trivial = at least two carrier frames of the same parameter reached one row; distinct = distinct scripts",
+        rule: "a run = an interleaved history of well-formed frames of every supported format (valid and no-valid-value variants of each carrier) for 1-4 aircraft with time steps in between (incl. > 10 s and > delete_after), zero-delay and delayed duplicates, -U/-R on/off; every third run index enumerates short histories (length 2-4) densely over a reduced alphabet of 2 aircraft x 13 frame kinds x valid/invalid; the rest are random (length 3-60); bursts of 30-120 frames of one aircraft within a second; long uptime and calendar boundaries; non-trivial = at least two carrier frames of the same parameter reached one row; distinct = distinct scripts",
         level_text: "seeded refinement check against a small executable fold ('latest carrier wins') after every event; the value a frame carries is taken from the decoder's own state-free decode, so the check judges routing, overwriting, clearing, cross-talk and idempotence - not field decoding",
     }
 }
@@ -101,6 +101,7 @@ fn gen(rng: &mut Rng, idx: u64, tier: Tier) -> Case {
         }
     }
     gen::long_uptime(rng, &mut lines, 0.03);
+    gen::near_time_boundary(rng, &mut lines, 0.02);
     let ch = if rng.chance(0.15) { Chunking::Pieces } else { Chunking::Line };
     let ops = gen::ops_of(rng, lines, ch);
     let mut script = Script::file(args, ops);
@@ -126,7 +127,7 @@ fn invalid_variant(rng: &mut Rng, ac: &mut gen::Ac, kind: Kind) -> Vec<u8> {
 }
 
 #[derive(Clone, Debug, PartialEq)]
-enum Val { U(Option<u32>), I(Option<i32>), S(Option<String>), C(char), Caps(u32, [bool; 5]) }
+enum Val { U(Option<u32>), I(Option<i32>), S(Option<String>), C(char), Caps(u32, [bool; 5]), Cat(u32, u32) }
 
 struct Param {
     name: &'static str,
@@ -142,6 +143,7 @@ const PARAMS: &[Param] = &[
     Param { name: "vertical rate", get: |r| Val::I(r.vrate) },
     Param { name: "heading", get: |r| Val::U(r.heading) },
     Param { name: "GNSS altitude", get: |r| Val::U(r.altitude_gnss) },
+    Param { name: "emitter category", get: |r| Val::Cat(r.category.0, r.category.1) },
     Param { name: "surveillance status", get: |r| Val::C(r.surveillance_status) },
     Param { name: "ADS-B version", get: |r| Val::U(r.adsb_version) },
     Param { name: "capability (CA)", get: |r| Val::U(Some(r.ca)) },
@@ -155,6 +157,7 @@ fn blank(name: &str) -> Val {
         "surveillance status" => Val::C(' '),
         "capability (CA)" => Val::U(Some(0)),
         "capability (BDS 1,7 report)" => Val::Caps(0, [false; 5]),
+        "emitter category" => Val::Cat(0, 0),
         _ => Val::U(None),
     }
 }
@@ -225,6 +228,11 @@ fn role(p: &str, c: &Carried, frame: &[u8], relaxed: bool, row_altitude: Option<
         "GNSS altitude" => match df {
             17 if c.tc == 19 => match (c.altitude_delta, row_altitude) { (Some(dlt), Some(alt)) => Role::Must(Val::U(Some((alt as i32 + dlt) as u32))), _ => Role::NoValue },
             17 if (20..=22).contains(&c.tc) => opt_u(c.altitude_gnss),
+            _ => Role::Not,
+        },
+        // carried by identification squitters only (type code = category set, next three bits = category)
+        "emitter category" => match df {
+            17 if (1..=4).contains(&c.tc) => Role::Must(Val::Cat(c.tc, c.st)),
             _ => Role::Not,
         },
         "surveillance status" => match df {
